@@ -7,7 +7,8 @@
     c19.b2lx      hex                  -> str
     c19.chain     kind serverstr       -> hex(lx s) '|' b2lx(lx s)      (hash returned by one call, passed to the next)
     c19.tx        txfmt                -> hex(ser tx) '|' show(deserialize(unhex(hex)))      likewise c19.header, c19.block
-    c19.unhex     str                  -> hex | err:py:Error            (unhexlify_str)
+    c19.unhex     str                  -> hex | err:py:Error            (unhexlify_str, x)
+    c19.hex       hex                  -> str                           (hexlify_str, b2x)
     c19.reply     method replyspec     -> result:<v> | raise:<Class>:<code> | err:py:IndexError
     c19.ids       tokens               -> ids sent, ','-joined ('b' for a batch request)
 
@@ -92,6 +93,9 @@ def handle (op : String) (args : List String) : Option String :=
       | none => badArgs
   | "c19.lx", [s] => some <| Res.render ((lx s).map toHex)
   | "c19.unhex", [s] => some <| Res.render ((unhexlify s).map toHex)
+  | "c19.hex", [h] => some <| match parseHex? h with
+      | some b => hexlify b
+      | none => badArgs
   | "c19.b2lx", [h] => some <| match parseHex? h with
       | some b => b2lx b
       | none => badArgs
